@@ -1,3 +1,3 @@
 """Library models: the trusted base of mirsym.  Each model is written against the documented
 contract of the std / bytes / tokio / lru / ... function it stands for."""
-from . import util, core, strings, fmt, collections_, io, regex_  # noqa
+from . import util, core, strings, fmt, collections_, io, regex_, misc  # noqa
